@@ -568,6 +568,12 @@ CompletedFromQueued(qkey, p) ==
     /\ OpInQueue(S, o, qkey) /\ PathPrefix(p, o.inv)
     /\ TaskOf(S, o.task).stage = "Q" /\ o.task \in NewlyCompleted
 LastStartedChecks == <<
+    \* "after the configured number of retries" / stated cause "retry limit
+    \* reached": the count of re-issues belongs to the assignment of the task
+    \* to its current worker, so it starts at zero with every assignment (the
+    \* cause check of SchedulerMadeOK reads it from the snapshot)
+    <<\A id \in NewlyAssigned : TaskOf(Post, id).retry = 0, "C02:retry-count-carried-over-to-a-new-assignment">>,
+    <<\A id \in NewlyAssigned : TaskOf(Post, id).retry = 0, "C06:retry-count-carried-over-to-a-new-assignment">>,
     \* "then oldest": the age of a task counts from the section that created it
     \* (a background learning run inherits the time of its foreground task)
     <<(\A id \in NewTasks : (Call.kind = "execute" /\ (~TaskOf(Post, id).dnc \/ Call.dnc)) => TaskOf(Post, id).queued_at = Post.now)
